@@ -193,14 +193,26 @@ lx_harness! {
         let flags = any_eval_flags();
         let pnl: u32 = kani::any();
         let mut lx = setup(&t, &[LexerMode::Default, LexerMode::ExpectSymbol(TokenType::RPAREN, TokenChannel::DEFAULT), LexerMode::MacroEval { macro_eval_flags: flags, pnl }]);
-        shadow::preload_token(shadow::mk_token(TokenChannel::DEFAULT, TokenType::IntegerLiteral, 1, 1, 0, Payload::None));
+        // look-behind: an operand, or something after which an empty operand is due before a comparison operator
+        let prev_tt = match kani::any::<u8>() % 3 {
+            0 => TokenType::IntegerLiteral,
+            1 => TokenType::LPAREN,
+            _ => TokenType::KwAND,
+        };
+        shadow::preload_token(shadow::mk_token(TokenChannel::DEFAULT, prev_tt, 1, 1, 0, Payload::None));
         let pre = snapshot(&lx, &t);
         lx.dispatch_mode_macro_eval('%', flags, pnl);
         let pi = check_common(&lx, &t, &pre);
         check_progress::<3, 16, 3>(&lx, &t, &pre, pi);
         let quoted = matches!(ch_at(&t, 1), Some('~' | '^' | '='));
-        let tk = shadow::tok(pre.tok_n);
-        assert!(shadow::tok_n() == pre.tok_n + 1 && tk.byte_offset.get() as usize == t.byte_at(pre.pi) && tk.channel == TokenChannel::DEFAULT, "C06/C02: one token starting at the percent sign");
+        // an empty operand position before the %-quoted operator is marked, zero-width, where the operator token starts
+        let e = (quoted && ref_empty_operand(prev_tt, ref_eval_op(&t, 1).map(|x| x.0))) as usize;
+        if e == 1 {
+            let et = shadow::tok(pre.tok_n);
+            assert!(shadow::tok_n() == pre.tok_n + 2 && et.token_type == TokenType::MacroStringEmpty && et.byte_offset.get() as usize == t.byte_at(pre.pi), "C13/C06/C02: the empty operand token is zero-width at the start of the %-quoted operator");
+        }
+        let tk = shadow::tok(pre.tok_n + e);
+        assert!(shadow::tok_n() == pre.tok_n + 1 + e && tk.byte_offset.get() as usize == t.byte_at(pre.pi) && tk.channel == TokenChannel::DEFAULT, "C06/C02: one token starting at the percent sign");
         if quoted {
             let (tt, len) = ref_eval_op(&t, 1).unwrap();
             assert!(tk.token_type == tt && pi == pre.pi + 1 + len, "C13/C06: a %-prefixed operator is its operator token, the prefix included");
@@ -210,6 +222,7 @@ lx_harness! {
         }
         assert!(lx.errors.len() == pre.err_n);
         kani::cover!(quoted && pi == 3);
+        kani::cover!(e == 1, "empty operand before a %-quoted operator");
         kani::cover!(!quoted && t.n == 1);
         std::mem::forget(lx);
     }
